@@ -1,6 +1,8 @@
 import re
 from re import Pattern
 
+from flowmark.linewrapping.tag_handling import TEMPLATE_TAG_PATTERN
+
 # Note `^` is the start of the text only (no re.MULTILINE): whether a `...` happens to follow a
 # soft line break in the source must not influence the result, or reformatting would not be stable.
 ELLIPSIS_PATTERN: Pattern[str] = re.compile(
@@ -23,7 +25,14 @@ def ellipses(text: str) -> str:
       the punctuation.
     """
 
+    # Template tags (Jinja/Markdoc `{% %}`, `{# #}`, `{{ }}`) and HTML comments are never modified,
+    # as for smart quotes: a `...` inside them is syntax or data, not prose.
+    tag_spans = [m.span() for m in TEMPLATE_TAG_PATTERN.finditer(text)]
+
     def replace_match(match: re.Match[str]) -> str:
+        if any(start <= match.start() < end for start, end in tag_spans):
+            return match.group(0)
+
         prefix = match.group(1)
         spaces_before = match.group(2)
         punct = match.group(4)
